@@ -263,8 +263,10 @@ def _compute_interpolation_weights(inputs, keypoints, lengths):
   # weights always matches the shape of inputs.
   weights = (inputs - keypoints) / lengths
   # A zero-length piece (keypoints collapsed by softmax underflow, or
-  # keypoint_input_min == keypoint_input_max) is a step: 0/0 must not be NaN.
-  weights = tf.where(tf.math.is_nan(weights), tf.ones_like(weights), weights)
+  # keypoint_input_min == keypoint_input_max) is the step `1 if x > keypoint
+  # else 0`: 0/0 must not be NaN. (Mapping it to 1 would break the staircase
+  # shape of the weights when an earlier tiny piece is absorbed by rounding.)
+  weights = tf.where(tf.math.is_nan(weights), tf.zeros_like(weights), weights)
   weights = tf.clip_by_value(weights, 0.0, 1.0)
   return _front_pad(weights, 1.0)
 
